@@ -7,7 +7,7 @@ From HL7 Require Import Lib.Str Model.Ec Model.Escape Model.Result Model.Ref Mod
   Model.Leaf Model.Wf.
 From HL7 Require Import Gen.Params Gen.Tables.
 From HL7 Require Import Proofs.EscapeFacts Proofs.SplitJoin Proofs.LevelCodec Proofs.RoundTripStr Proofs.RoundTripCore
-  Proofs.RoundTripVT Proofs.RoundTripZ Proofs.RoundTripTables.
+  Proofs.RoundTripVT Proofs.RoundTripZ Proofs.RoundTripTables Proofs.RoundTripSeg Proofs.RoundTripSegTables.
 Import ListNotations.
 Open Scope bs_scope.
 
@@ -44,3 +44,43 @@ Example C02_Z_example :
   is_blank x = false /\ delim_free default_ec x /\ st_fixed "2.5" default_ec x /\
   zname "A" "1" ++ repeat (fsep default_ec) 7 ++ x = unbs "ZA1|||||||a\F\b c".
 Proof. repeat split; vm_compute; reflexivity. Qed.
+
+(* Table segments: every supported version, every segment it defines (the structure wildcard
+   ANYHL7SEGMENT is not a segment; MSH is excluded here), every field position i whose row is a leaf
+   of a base datatype b, every value x that the leaf encoder of b leaves unchanged: the line made of
+   the name, exactly i field separators and x parses to the single child <SEG>_i holding x, and
+   encodes back to exactly that line. *)
+Theorem C02_field_position : forall v t, tables_of v = Some t ->
+  forall e, ec_ok e ->
+  forall sn r, In (sn, r) (t_segments t) -> sn <> unbs "ANYHL7SEGMENT" -> sn <> unbs "MSH" ->
+  exists srows, r = SSeqIn false srows None /\
+  forall i row inf b x,
+    1 <= i -> nth_error srows (pred i) = Some row ->
+    row_ref t row = Some (SLeaf inf) -> i_dt inf = Some b -> base t (Some b) = true ->
+    is_blank x = false -> delim_free e x -> leaf_enc v TOLERANT e (Some b) x = Ok x ->
+    let text := sn ++ repeat (fsep e) i ++ x in
+    exists s f c sb,
+      parse_segment t TOLERANT e (leaf_enc v TOLERANT e) text None = Ok s /\
+      s_children s = [f] /\ f_name f = Some (name_idx sn i) /\ f_children f = [c] /\
+      c_children c = [sb] /\ sc_value sb = x /\
+      enc_segment t e s false = Ok text.
+Proof.
+  intros v t Ht e He sn r Hin Ha Hm.
+  destruct (shipped_table_facts v t Ht) as [Hst [Hvar _]].
+  destruct (shipped_segment_ok v t sn r Ht Hin Ha Hm) as [Hl [srows [-> [H3 [Hup [Hmsh [Hz [Hc Hrows]]]]]]]].
+  exists srows. split; [reflexivity|]. intros i row inf b x Hi Hn Hr Hdt Hb Hx Hd Hlf.
+  exact (field_position t e (leaf_enc v TOLERANT e) He Hst Hvar sn srows i row inf b x
+           H3 Hup Hmsh Hz Hl Hc Hrows Hi Hn Hr Hdt Hb Hx Hd Hlf).
+Qed.
+Print Assumptions C02_field_position.
+
+(* a real row: PID-1 (SI) of v2.5 *)
+Example C02_field_position_example :
+  let t := Gen.Tables_v2_5.tables in
+  exists srows row inf,
+    slookup "PID" (t_segments t) = Some (SSeqIn false srows None) /\
+    nth_error srows (pred 1) = Some row /\ row_ref t row = Some (SLeaf inf) /\
+    i_dt inf = Some (unbs "SI") /\ base t (Some (unbs "SI")) = true /\
+    leaf_enc "2.5" TOLERANT default_ec (Some (unbs "SI")) "12" = Ok (unbs "12") /\
+    is_blank "12" = false /\ delim_free default_ec "12".
+Proof. vm_compute. do 3 eexists. repeat split; reflexivity. Qed.
